@@ -49,7 +49,9 @@ def run(rep):
     rep.assumptions += ["the 5/8/12 s second-difference bounds and the 4 min/day bound for the trig-defined times depend on the curvature of "
                         "the real ephemeris (EPH smoothness) and are outside the claim; the claim is the absence of calendar/wrap-induced jumps"]
     results = base.run_obligations(rep, [(jd.jd_gmt_shift, None), (jd.jd_formula, (1583, 9999)), (transit.ra_deltas, None), (transit.dhuhr_transit, None), (wiring.astro_day_wiring, None)] +
-                                   [(rounding.rounding, ("None", k, -50, 75, 1500)) for k in rounding.PRAYERS])
+                                   [(rounding.rounding, ("None", k, -50, 75, 1500)) for k in rounding.PRAYERS] + [(wiring.astro_new_obls, None)])
+    from . import ephsweep as _es
+    _es.confirm_jd_candidates(rep, results)
     if any((x["cands"] or x["inconclusive"]) for x in results if x["name"].startswith("hour_to_time")):
         from . import c11
         c11.confirm_rounding(rep, results)      # the clock conversion of unrounded seconds is truncation (no jump of its own)
